@@ -178,13 +178,19 @@ def _exact_flow_float(sysm, q, p, t, nsub=2000):
     return q, p
 
 
-def prob_order2(mk, ikind, kind, dim, mkind):
+def prob_order2(mk, ikind, kind, dim, mkind, origin=False):
     """One step of size eps agrees with the exact flow of the system's own Hamiltonian through eps^2
-    (local error O(eps^3)); the energy error has no eps^0..eps^2 term."""
+    (local error O(eps^3)); the energy error has no eps^0..eps^2 term.
+
+    origin=True: the expansion point is q = 0.  The model functions are polynomials with free symbolic coefficients, and the
+    family is closed under translation (U(q0 + x) is again a polynomial of the same degree in x whose coefficients range over
+    all reals as those of U do), so the claim at q = 0 for all coefficients is the claim at every q0 - with far smaller terms."""
     sysm, info = sl.make_system(S, M, mk, kind, dim, mkind=mkind)
-    tag = f"{ikind}/{kind}/{mkind}/dim{dim}"
+    tag = f"{ikind}/{kind}/{mkind}/dim{dim}" + ("/origin" if origin else "")
     if mk.symbolic:
         q, p = mk.arr("q", dim), mk.arr("p", dim)
+        if origin:
+            q = np.array([SV(0)] * dim, dtype=object)
         if "metric_model" in info:
             info["metric_model"].require_valid(mk, list(q))
         integ = make_integrator(mk, ikind, sysm, Ser([0, 1]), **_series_kwargs(ikind))
@@ -206,6 +212,8 @@ def prob_order2(mk, ikind, kind, dim, mkind):
         return items
     # concrete replay: observed local order from two step sizes against an RK4 reference
     q, p = mk.arr("q", dim), mk.arr("p", dim)
+    if origin:
+        q = np.zeros(dim)
     errs = []
     for eps in (2e-2, 1e-2):
         integ = make_integrator(mk, ikind, sysm, eps)
@@ -291,12 +299,16 @@ def prob_order2_constrained(mk, solver="newton", n_inner=1):
     return [Item(lb + f" [observed error ratio {ratio:.2f}]", ok, None, kind="true") for lb in labels]
 
 
-def prob_series_reversible(mk, ikind, kind, dim, mkind, n=1):
+def prob_series_reversible(mk, ikind, kind, dim, mkind, n=1, origin=False):
     """Implicit integrators with the real fixed-point solver, in the series domain: n steps forward, flip, n steps
-    back return to the start through eps^3 (reversible to O(eps^4) for every state and model coefficient)."""
+    back return to the start through eps^3 (reversible to O(eps^4) for every state and model coefficient).
+    origin=True: start position q = 0 (without loss of generality for polynomial models with free coefficients, see
+    prob_order2)."""
     sysm, info = sl.make_system(S, M, mk, kind, dim, mkind=mkind)
-    tag = f"{ikind}/{kind}/{mkind}/dim{dim}/n{n}"
+    tag = f"{ikind}/{kind}/{mkind}/dim{dim}/n{n}" + ("/origin" if origin else "")
     q, p = mk.arr("q", dim), mk.arr("p", dim)
+    if origin:
+        q = np.array([SV(0)] * dim, dtype=object) if mk.symbolic else np.zeros(dim)
     if mk.symbolic:
         if "metric_model" in info:
             info["metric_model"].require_valid(mk, list(q))
